@@ -95,6 +95,7 @@ func runC07(c string) string {
 	var batches [][][]int
 	dest := []int{4}
 	dmg := []string{"none"}
+	viewPad := -1
 	for _, p := range parts[1:] {
 		f := fields(p)
 		if len(f) == 0 {
@@ -120,6 +121,9 @@ func runC07(c string) string {
 			}
 		case "DMG":
 			dmg = f[1:]
+		case "VIEW":
+			// the batches are written as views [start, end) of one frame that holds `pad` other rows in front of them
+			viewPad = atoi(f[1])
 		}
 	}
 	// encode
@@ -131,8 +135,27 @@ func runC07(c string) string {
 	for i, k := range kinds {
 		ts[i] = kindType(k)
 	}
+	var big frame.Frame
+	bigAt := 0
+	if viewPad >= 0 {
+		total := viewPad
+		for _, b := range batches {
+			total += len(b)
+		}
+		big = frame.Make(ts, total+viewPad, total+viewPad)
+		for i := 0; i < total+viewPad; i++ {
+			for cidx, k := range kinds {
+				big.Index(cidx, i).Set(fromInt(k, 1+(77+i)%2))
+			}
+		}
+		bigAt = viewPad
+	}
 	for _, b := range batches {
 		f := frame.Make(ts, len(b), len(b))
+		if viewPad >= 0 {
+			f = big.Slice(bigAt, bigAt+len(b))
+			bigAt += len(b)
+		}
 		for i, r := range b {
 			for cidx, k := range kinds {
 				f.Index(cidx, i).Set(fromInt(k, r[cidx]))
